@@ -50,9 +50,9 @@ def _replica_case(name):
 
 
 def bmc_cases(props, tier):
-    """both replicas from the REAL constructors with a symbolic deal: the first trick (quick) / two tricks (thorough).  Decides alone
+    """both replicas from the REAL constructors with a symbolic deal: the first trick (quick) / six plays (thorough).  Decides alone
     when the observer keeps state that the product step's invariant does not describe (H1 'not applicable')."""
-    n = 8 if tier == 'thorough' else 4
+    n = 6 if tier == 'thorough' else 4
     return [(play.case_bmc_observer, f'observer BMC: first {n} plays from the constructors, declarer {d}, observer {o}',
              dict(props=props, n=n, declarer=d, obs_seat=o)) for d in range(1, 5) for o in range(1, 5)]
 
@@ -67,7 +67,7 @@ def cases(tier):
 META = dict(
     level='model_checking',
     bounds={'(b),(c)': 'the four bundled clients of the recorded sessions S2, S4 (quick) / S2-S6: every board\'s local auction and single-seat observer compared with the table manager\'s log; completion of every client; all schedules of those sessions by C09',
-            '(a2)': 'full game x observer from the real constructors, symbolic deal and contract, first 4 (quick) / 8 (thorough) accepted plays, every declarer x observer seat',
+            '(a2)': 'full game x observer from the real constructors, symbolic deal and contract, first 4 (quick) / 6 (thorough) accepted plays, every declarer x observer seat',
             '(a)': 'any trick 1..13, 0..3 cards on the table, any contract, any disjoint hands, any observer seat, any card and seat offered'},
     stubs=['logger calls skipped'],
     assumptions=play.COMMON_ASSUMPTIONS + ['the relation between replicas is the one printed in harness/play.py:case_observer; dummy is disclosed to an '
